@@ -13,14 +13,14 @@ from sx.runner import Harness
 ID = "C33"
 MANIFEST = {
     "technique": "bounded model checking with solver-decided choice (SX engine): the helper request (doins, doexe, dobin, dodoc, dodir, keepdir, dosym incl. -r, dohard, doman incl. language detection and -i18n, domo, dohtml, each with the option strings the shell side passes), the EAPI and the nonfatal flag are symbolic selectors; the engine forks over every feasible combination, runs the real IpcCommand.__call__ of the helper class against a scripted daemon channel and a real scratch image directory, and compares the image snapshot (paths, types, modes, ownership, contents, link targets, inode sharing) and the reply status with a hand-written table of what PMS prescribes for that request",
-    "level_text": "Bounded model checking, exhaustive within the bound (33 requests x EAPI 6/7/8 x nonfatal on/off): the image holds exactly the entries PMS prescribes (no more, no fewer non-directory entries; directories only the requested ones and the parents of entries) with the requested modes; requests PMS forbids (a directory given to doins/dodoc/dohtml without -r, dosym to a name ending in a slash, dosym -r before EAPI 8 or with a relative target, man pages without a usable section) are answered with a failure status and create nothing; dosym -r creates the relative link that resolves, from the link's directory, to the absolute target. Selector-only; real code on real files.",
+    "level_text": "Bounded model checking, exhaustive within the bound (35 requests x EAPI 6/7/8 x nonfatal on/off): the image holds exactly the entries PMS prescribes (no more, no fewer non-directory entries; directories only the requested ones and the parents of entries) with the requested modes; requests PMS forbids (a directory given to doins/dodoc/dohtml without -r, dosym to a name ending in a slash, dosym -r before EAPI 8 or with a relative target, man pages without a usable section) are answered with a failure status and create nothing; dosym -r creates the relative link that resolves, from the link's directory, to the absolute target. Selector-only; real code on real files.",
     "level_note": "selector-only harness (labelled as such). The expectation table is the trusted part (one line per request). The --dest/--insoptions/--diroptions strings are what the shell wrappers of data/lib/pkgcore/ebd/helpers pass; the shell side itself (into/insinto state, banned-helper checks) is outside.",
 }
 META = {
     "modules": ["pkgcore.ebuild.ebd_ipc", "pkgcore.ebuild.misc"],
     "functions": ["ebd_ipc.IpcCommand.__call__", "ebd_ipc._InstallWrapper.run/_install/_install_dirs/_install_symlinks/_install_from_dirs/_set_attributes", "ebd_ipc.Doins/Dodoc/Doexe/Dobin/Dodir/Keepdir/Dosym/Dohard/Doman/Domo/Dohtml", "misc.get_relative_dosym_target"],
     "stubs": ["scripted daemon channel (FakeEbd)", "package object carrying eapi/category/PN/slot/PF/restrict"],
-    "bounds": {"quick": "33 requests, EAPI 6/7/8, nonfatal on/off", "thorough": "same (the space is swept completely in both tiers)"},
+    "bounds": {"quick": "35 requests, EAPI 6/7/8, nonfatal on/off", "thorough": "same (the space is swept completely in both tiers)"},
     "outside": ["the shell wrappers (into/insinto/exeinto state, banned helpers per EAPI)", "the external install(1) fallback for unknown options (C32)", "doheader/doconfd/doenvd/doinitd/newins (thin wrappers of the same classes)"],
     "assumptions": [],
     "selector_only": True,
@@ -37,7 +37,7 @@ def table(eapi):
     ins = "--dest=/usr/share/p --insoptions=-m0644"
     man = "--dest=/usr/share/man --insoptions=-m0644"
     doc = "--dest=/usr/share/doc/pf --insoptions=-m0644"
-    sub = {"/usr/share/p/sub/c.txt": (F, 0o644, "C"), "/usr/share/p/sub/deep/d.txt": (F, 0o644, "D"), "/usr/share/p/sub/link": (S, "c.txt"), "/usr/share/p/sub/dlink": (S, "deep")}
+    sub = {"/usr/share/p/sub/emptydir": (D, None), "/usr/share/p/sub/deep/spool": (D, None), "/usr/share/p/sub/c.txt": (F, 0o644, "C"), "/usr/share/p/sub/deep/d.txt": (F, 0o644, "D"), "/usr/share/p/sub/link": (S, "c.txt"), "/usr/share/p/sub/dlink": (S, "deep")}
     docsub = {k.replace("/usr/share/p/", "/usr/share/doc/pf/"): v for k, v in sub.items()}
     return [
         ("Doins", ins, ["a.txt"], {"/usr/share/p/a.txt": (F, 0o644, "A")}),
@@ -47,6 +47,8 @@ def table(eapi):
         ("Doins", ins, ["-r", "sub"], sub),
         ("Doins", ins, ["-r", "sub", "a.txt"], dict(sub, **{"/usr/share/p/a.txt": (F, 0o644, "A")})),
         ("Doins", ins, ["missing.txt"], REJ),
+        ("Doins", "--dest=/usr/share/p --insoptions=-m0000", ["a.txt"], {"/usr/share/p/a.txt": (F, 0, "A")}),
+        ("Dodir", "--diroptions=-m0", ["/var/lib/locked"], {"/var/lib/locked": (D, 0)}),
         ("Doexe", "--dest=/usr/libexec/p --insoptions=-m0755", ["b.sh", "a.txt"], {"/usr/libexec/p/b.sh": (F, 0o755, "#!/bin/sh\n"), "/usr/libexec/p/a.txt": (F, 0o755, "A")}),
         ("Dobin", "--dest=/usr/bin", ["b.sh"], {"/usr/bin/b.sh": (F, 0o755, "#!/bin/sh\n")}),
         ("Dosbin", "--dest=/usr/sbin", ["b.sh"], {"/usr/sbin/b.sh": (F, 0o755, "#!/bin/sh\n")}),
@@ -111,6 +113,8 @@ def populate(work, ed):
     w(os.path.join(work, "b.sh"), "#!/bin/sh\n", 0o700)
     w(os.path.join(work, "sub/c.txt"), "C")
     w(os.path.join(work, "sub/deep/d.txt"), "D")
+    os.makedirs(os.path.join(work, "sub/emptydir"))
+    os.makedirs(os.path.join(work, "sub/deep/spool"))
     os.symlink("c.txt", os.path.join(work, "sub/link"))
     os.symlink("deep", os.path.join(work, "sub/dlink"))
     for n, d in (("foo.1", "M"), ("foo.de.1", "Mde"), ("bar.3.gz", "Mgz"), ("nosec", "x"), ("odd.x1", "x"), ("de.mo", "MO"), ("index.html", "<html/>")):
@@ -189,8 +193,8 @@ class HelperHarness(Harness):
                         if a[:2] != w:
                             problems.append(f"{p}: {a[:2]} instead of {w}")
                     elif w[0] == D:
-                        if a[0] != D or a[1] != w[1]:
-                            problems.append(f"{p}: {a} instead of directory mode {w[1]:o}")
+                        if a[0] != D or (w[1] is not None and a[1] != w[1]):
+                            problems.append(f"{p}: {a} instead of directory mode {w[1]}")
                     else:
                         if a[0] != F or (w[1] is not None and a[1] != w[1]) or a[2] != w[2]:
                             problems.append(f"{p}: {(a[0], oct(a[1]) if a[0] != S else a[1], a[2] if a[0] == F else None)} instead of {(w[0], oct(w[1]) if w[1] is not None else None, w[2])}")
